@@ -18,7 +18,12 @@ def run_entry(ent):
     ev = tempfile.mkdtemp(prefix="vstev-", dir="/tmp")
     res = {"name": ent["name"], "kind": ent["kind"], "ok": False, "detail": ""}
     try:
-        subprocess.check_call(["git", "-C", "/repo", "worktree", "add", "--detach", wt, "HEAD"], stdout=subprocess.DEVNULL, stderr=subprocess.DEVNULL)
+        for _try in range(20):
+            if subprocess.call(["git", "-C", "/repo", "worktree", "add", "--detach", wt, "HEAD"], stdout=subprocess.DEVNULL, stderr=subprocess.DEVNULL) == 0:
+                break
+            __import__("time").sleep(0.5 + 0.1 * _try)
+        else:
+            raise RuntimeError("git worktree add failed repeatedly")
         for ed in ent.get("edits", []):
             p = os.path.join(wt, ed["file"])
             s = open(p).read()
